@@ -337,6 +337,18 @@ pub fn gen_c13(seed: u64, thorough: bool) {
         v.extend(random_lsp(&mut rng, order));
         let k = *rng.pick(&[65usize, 129, 257]);
         println!("{}", c13_case(order, stage, log_gain, rate, alpha, beta, &v, k));
+        if beta != 0.0 {
+            // the LSP post-filter moves the frequencies and compensates the gain; with one pulse at sample 0 the
+            // compensated gain is never applied, so tie it to the model on three frames with a pulse train
+            let case = VocCase {
+                nmcp: order + 1, nlpf: 0, stage, log_gain, rate: 16000, alpha, beta, volume: 1.0, fperiod: 160,
+                frames: (0..3).map(|_| (200.0f64.ln(), v.clone(), vec![])).collect(),
+            };
+            let mut line = String::from("voc RAW");
+            case.push(&mut line);
+            push_wave(&mut line, &case.run());
+            println!("{}", line);
+        }
     }
 }
 
